@@ -1105,6 +1105,67 @@ func (m *machine) actFork(l string) bool {
 	return true
 }
 
+// actSiblingThenChild produces the head pattern "sibling at the synced
+// height, then that sibling's child": a block A(N) with events is added and
+// synced (position N); the chain is forked at N-1-d with a branch carrying
+// other events at height N; the head B(N) is presented (a no-op: its number
+// equals the position), then B(N+1), whose parent is not the stored block.
+func (m *machine) actSiblingThenChild(l string) (bool, *failure) {
+	if m.unjudged != "" || m.dirty() {
+		return false, nil
+	}
+	t := m.curTip()
+	n1 := m.addBlocks(t, 1, map[int]bool{0: true}, l+"A")
+	m.chain.SetHead(t.blk)
+	m.hist = append(m.hist, fmt.Sprintf("extend1[e%d]", n1))
+	if fail := m.doSync(t.blk, faultSpec{}); fail != nil {
+		return true, fail
+	}
+	st := m.status(m.shadow)
+	if !st.ok || st.number != t.blk.Number() || st.number < 1 || m.dirty() {
+		return true, nil
+	}
+	if m.excl.reReg && m.rollbackLosesReReg(st.number) {
+		recC15.Excluded(sigReRegLost)
+		return true, nil
+	}
+	N := st.number
+	d := uint64(rapid.SampledFrom([]int{0, 0, 0, 1, 2}).Draw(m.rt, l+"below"))
+	f := N - 1
+	if f >= d && f-d >= m.minForkPoint() {
+		f -= d
+	}
+	mt, _ := m.stateAt(t, f)
+	nt := &tip{blk: ancestor(t.blk, f), meta: mt}
+	k := int(N + 1 - f)
+	with := map[int]bool{k - 2: true} // the block numbered N
+	for i := 0; i < k; i++ {
+		if rapid.Bool().Draw(m.rt, fmt.Sprintf("%sBhas%d", l, i)) {
+			with[i] = true
+		}
+	}
+	n2 := m.addBlocks(nt, k, with, l+"B")
+	m.tips = append(m.tips, nt)
+	m.cur = len(m.tips) - 1
+	m.chain.SetHead(nt.blk)
+	m.hist = append(m.hist, fmt.Sprintf("fork@%d+%d[e%d]", f, k, n2))
+	m.label("fork")
+	m.label("head-sibling-at-synced-height-then-its-child")
+	if m.abandonedDecrypted(f) {
+		m.label("decrypted-flags-set-between-syncs:row-of-later-abandoned-block-marked-decrypted")
+	}
+	// B(N): number equals the position; optionally also an even lower head of the new branch first
+	if f+1 < N && rapid.Bool().Draw(m.rt, l+"lowerFirst") {
+		if fail := m.doSync(m.chain.Canonical(N-1), faultSpec{}); fail != nil {
+			return true, fail
+		}
+	}
+	if fail := m.doSync(m.chain.Canonical(N), faultSpec{}); fail != nil {
+		return true, fail
+	}
+	return true, m.doSync(m.chain.Canonical(N+1), faultSpec{})
+}
+
 // actSwitch makes an abandoned branch canonical again.
 func (m *machine) actSwitch(l string) bool {
 	lo := m.minForkPoint()
@@ -1270,6 +1331,11 @@ func runC15History(rt *rapid.T, k *kindSpec, maxActions int) {
 		case c < 10:
 			if !m.actSwitch(l) {
 				m.actExtend(l)
+			}
+		case c == 19:
+			var done bool
+			if done, fail = m.actSiblingThenChild(l); !done {
+				fail = m.actSync(l)
 			}
 		case c < 12 && m.k.markDecrypted != nil:
 			if !m.actMarkDecrypted(l) {
